@@ -9,7 +9,7 @@ from pathlib import Path
 
 import os
 
-from .. import detgen, detproj, docgen, e2e
+from .. import detgen, detproj, detsets, docgen, e2e
 from ..common import PY, REPO
 from ..keyenc import unkey
 from ..runner import Check
@@ -695,6 +695,85 @@ def campaign_history_pairs(ck: Check, lab: Lab, n: int, fresh_each: bool = True)
     camp.wall_s = time.time() - t0
 
 
+# ---------------------------------------------------------------- list-valued keywords under several hash seeds
+HASH_SEEDS = [0, 1, 2, 3, 4]
+
+
+def campaign_hashseed_lists(ck: Check, lab: Lab, cases: list[dict], title: str, chunks: int = 3, max_failures: int = 2) -> None:
+    """the property's own oracle on the list-valued-keyword family: every case in fresh processes that differ in nothing but
+    PYTHONHASHSEED (same order of calls, same cwd, same listing) must write byte-identical files; a failing document is
+    shrunk to one property before it is recorded"""
+    camp = ck.campaign(title)
+    t0 = time.time()
+    cwd = str(lab.root / "w" / "hs")
+    size = max(1, -(-len(cases) // chunks))
+    parts = [cases[j: j + size] for j in range(0, len(cases), size)]
+    jobs = [(pi, s) for pi in range(len(parts)) for s in HASH_SEEDS]
+    raw = pmap(lambda jb: lab.run("hs", [strip(c) for c in parts[jb[0]]], seed=jb[1], cwd=cwd, listing="sorted"), jobs)
+    for jb, r in zip(jobs, raw):
+        if "crash" in r:
+            ck.infra_errors.append(f"hash-seed child (part {jb[0]}, PYTHONHASHSEED={jb[1]}) crashed: {r['crash']}")
+    if ck.infra_errors:
+        return
+    res = dict(zip(jobs, raw))
+    n_fail = 0
+    for pi, part in enumerate(parts):
+        for c in part:
+            outs = {s: res[(pi, s)]["results"].get(c["id"]) for s in HASH_SEEDS}
+            keys = {s: outcome(o) for s, o in outs.items()}
+            camp.evaluations += len(keys)
+            camp.hit("family:" + c["family"].split(":")[0] + (":" + c["family"].split(":")[1] if c["family"].startswith("unique") else ""))
+            camp.hit(f"kind:{c['model']}")
+            camp.hit(f"input:{c['input_file_type']}")
+            for o in c["opts"]:
+                camp.hit("option:" + o)
+            ref = keys[HASH_SEEDS[0]]
+            if ref.startswith("files:") and outs[HASH_SEEDS[0]]["files"]:
+                camp.distinct.add(c["id"])
+            else:
+                camp.hit("generator-error:" + ref[6:40])
+            bad = [s for s in HASH_SEEDS if keys[s] != ref]
+            if not bad:
+                if len(camp.samples) < 3 and ref.startswith("files:"):
+                    camp.samples.append({"case": {k: v for k, v in c.items() if k in ("id", "family", "model", "opts", "input_file_type")},
+                                         "document": c["text"][:600], "hash_seeds": HASH_SEEDS, "identical": True})
+                continue
+            n_fail += 1
+            if n_fail > max_failures:
+                camp.hit("further-mismatch-not-diagnosed")
+                continue
+            # shrink: one property at a time, same hash seeds, fresh processes
+            small, diff = c, first_diff(outs[HASH_SEEDS[0]] or {}, outs[bad[0]] or {})
+            cands = detsets.shrink_candidates(c)[:40]
+            if cands:
+                pair = [HASH_SEEDS[0], bad[0]]
+                for j, cd in enumerate(cands):   # results are keyed by id
+                    cd["id"] = f"{c['id']}m{j}"
+                rr = pmap(lambda cs: lab.run("hs-min", [strip(cd) for cd in cands], seed=cs, cwd=cwd, listing="sorted"), pair)
+                if not any("crash" in r for r in rr):
+                    for cd in cands:
+                        a, b = rr[0]["results"].get(cd["id"]), rr[1]["results"].get(cd["id"])
+                        if outcome(a) != outcome(b):
+                            small, diff = cd, first_diff(a or {}, b or {})
+                            break
+                cands = detsets.shrink_keywords(small) if small is not c else []
+                for j, cd in enumerate(cands):   # … then without the keywords it does not take (fewest first)
+                    cd["id"] = f"{c['id']}k{j}"
+                rr = pmap(lambda cs: lab.run("hs-min", [strip(cd) for cd in cands], seed=cs, cwd=cwd, listing="sorted"), pair) if cands else []
+                if cands and not any("crash" in r for r in rr):
+                    for cd in cands:
+                        a, b = rr[0]["results"].get(cd["id"]), rr[1]["results"].get(cd["id"])
+                        if outcome(a) != outcome(b):
+                            small, diff = cd, first_diff(a or {}, b or {})
+                            break
+            ck.fail({"oracle": "differential", "entry": "generate", "factor": "hashseed", "input": "list-keywords", "same_basename": False,
+                     "input_file_type": c["input_file_type"], "mixed_types": False, "family": c["family"].split(":")[0]},
+                    {"kind": "differential", "case": strip(small), "dir_files": None, "history": None},
+                    f"PYTHONHASHSEED={bad[0]} differs from PYTHONHASHSEED={HASH_SEEDS[0]} (fresh processes, same calls, options {small['opts']}, {small['model']}): {diff}",
+                    "byte-identical files under every hash seed")
+    camp.wall_s = time.time() - t0
+
+
 # ---------------------------------------------------------------- corpus: directory inputs that once depended on the listing order
 _OPENAPI_PET = json.dumps({"openapi": "3.0.3", "info": {"title": "t", "version": "1"}, "paths": {},
                            "components": {"schemas": {"Pet": {"type": "object", "properties": {"name": {"type": "string"}}}}}})
@@ -908,6 +987,50 @@ def campaign_main_history(ck: Check, lab: Lab) -> None:
 
 
 # ---------------------------------------------------------------- search / replay / known findings
+LIST_TITLE = ("differential (hash seed only): list-valued schema keywords — `default` lists of >= 4 distinct strings on uniqueItems arrays with "
+              "use_unique_items_as_set on/off, enum defaults, `required` lists with many names, `examples` lists; JSON Schema and OpenAPI, every model "
+              "kind — in fresh processes under PYTHONHASHSEED 0..4 -> byte-identical files")
+
+
+def unjustified_functions(ck: Check) -> list[tuple[str, str, str]]:
+    """(obligation, file, function) of every table entry a refuter named, each function once"""
+    out, seen = [], set()
+    for what in ("sites", "cache", "returns", "cachereads", "writes", "aliases", "listing", "state"):
+        for g in ck.notes.get("unjustified_" + what, []):
+            if len(g) >= 2 and g[0].endswith(".py") and (g[0], g[1]) not in seen:
+                seen.add((g[0], g[1]))
+                out.append((what, g[0], g[1]))
+    return out
+
+
+def targeted_search(ck: Check, lab: Lab) -> None:
+    """for every function named by a refuter: the boolean options of generate() it reads x the schema keywords it names (plus the
+    carriers of list values: default, examples) -> documents that reach it, under PYTHONHASHSEED 0..4 for every model kind"""
+    rng = ck.rng.fork("targeted")
+    specs = []
+    for what, file, func in unjustified_functions(ck)[:6]:
+        try:
+            spec = detsets.derive(file, func)
+        except Exception as e:  # noqa: BLE001
+            specs.append({"site": [what, file, func], "error": type(e).__name__})
+            continue
+        key = (tuple(spec["options"]), tuple(spec["keywords"]))
+        if any(sp.get("key") == key for sp in specs):
+            continue
+        specs.append({"site": [what, file, func], "key": key, **spec})
+    ck.notes["targeted_families"] = [{k: v for k, v in sp.items() if k != "key"} for sp in specs]
+    for sp in specs:
+        if ck.failures or "error" in sp:
+            continue
+        carriers = [kw for kw in ("default", "examples") if kw not in sp["keywords"]]
+        spec = {**sp, "keywords": [*sp["keywords"], *carriers]}
+        cases = detsets.targeted_family(rng, spec, e2e.MODEL_KINDS)
+        campaign_hashseed_lists(ck, lab, cases, f"targeted search: documents that reach {sp['site'][1]}:{sp['function']} (options {spec['options']}, keywords {spec['keywords']}) "
+                                f"under PYTHONHASHSEED 0..4, every model kind -> byte-identical files", chunks=6, max_failures=1)
+    if not ck.failures:   # the always-run family, six times as many documents
+        campaign_hashseed_lists(ck, lab, detsets.quick_family(rng, e2e.MODEL_KINDS, 6), "search: " + LIST_TITLE, chunks=8, max_failures=1)
+
+
 def search(ck: Check) -> None:
     """a table obligation broke: name the unjustified sites, then run a larger differential campaign"""
     try:
@@ -930,6 +1053,8 @@ def search(ck: Check) -> None:
         # `with chdir(output)` -> many more cases x project directories; then the general differential campaign
         if any(k in ck.notes for k in ("unjustified_cwd", "formatting_not_in_output_directory")) or ck.disagreements:
             campaign_projects(ck, lab, 60, 8)
+        if not ck.failures:   # a new set / listing / cache site: documents that REACH the function the refuter names
+            targeted_search(ck, lab)
         if not ck.failures:   # a new alias of a module-level object / a new cache: what an EARLIER call leaves behind
             campaign_history_pairs(ck, lab, 100)
         if not ck.failures:
@@ -1014,6 +1139,7 @@ def run(ck: Check) -> None:
     lab = Lab()
     try:
         campaign_listing_corpus(ck, lab)
+        campaign_hashseed_lists(ck, lab, detsets.quick_family(ck.rng.fork("list-keywords"), e2e.MODEL_KINDS, 1 if quick else 8), LIST_TITLE, chunks=1 if quick else 12)
         campaign_history_pairs(ck, lab, 16 if quick else 100, fresh_each=not quick)
         campaign_differential(ck, lab, 60 if quick else 400, 6 if quick else 24, [0, 1, 2, 3] if quick else [0, 1, 2, 3, 4, 5, "random", 7])
         campaign_projects(ck, lab, 16 if quick else 90, 5 if quick else 12)
